@@ -1,7 +1,9 @@
 //! C01 — routing. Real code: `log4rs::Logger::new(config)` + `log::Log::log`, with one capturing
 //! `Append` per declared appender that records its own name per call into a shared vector.
 //! case:   appenders(,)  rootLevel  rootRefs(,)  loggers(, of name;level;additive;refs(|))  probes(, of target;level)
-//! obs:    per probe (,) the sequence (;) of appender names called (`~` none)
+//!         optional 6th field failing(,): these appenders record the call and then return Err
+//! obs:    per probe (,) the sequence (;) of appender names called (`~` none);
+//!         with the 6th field: calls!errors (errors = what reached the error handler, in order)
 use crate::proto::*;
 use crate::rng::Rng;
 use log::{Level, LevelFilter, Log, Record};
@@ -99,11 +101,15 @@ impl Cfg {
 pub struct Capture {
     pub name: String,
     pub sink: Arc<Mutex<Vec<String>>>,
+    pub fail: bool,
 }
 
 impl Append for Capture {
     fn append(&self, _record: &Record) -> anyhow::Result<()> {
         self.sink.lock().unwrap().push(self.name.clone());
+        if self.fail {
+            return Err(anyhow::anyhow!("{}", enc_str(&self.name)));
+        }
         Ok(())
     }
     fn flush(&self) {}
@@ -111,9 +117,15 @@ impl Append for Capture {
 
 /// `Config::builder()…build(root)` with capturing appenders; Err = the builder rejected it
 pub fn build_config(c: &Cfg, sink: &Arc<Mutex<Vec<String>>>) -> Result<Config, String> {
+    build_config_f(c, sink, &[])
+}
+
+/// … where the appenders named in `failing` return Err from `append` (after recording the call)
+pub fn build_config_f(c: &Cfg, sink: &Arc<Mutex<Vec<String>>>, failing: &[String]) -> Result<Config, String> {
     let mut b = Config::builder();
     for a in &c.appenders {
-        b = b.appender(Appender::builder().build(a.clone(), Box::new(Capture { name: a.clone(), sink: sink.clone() })));
+        let cap = Capture { name: a.clone(), sink: sink.clone(), fail: failing.contains(a) };
+        b = b.appender(Appender::builder().build(a.clone(), Box::new(cap)));
     }
     for l in &c.loggers {
         b = b.logger(
@@ -123,8 +135,18 @@ pub fn build_config(c: &Cfg, sink: &Arc<Mutex<Vec<String>>>) -> Result<Config, S
                 .build(l.name.clone(), level_filter(l.level)),
         );
     }
-    b.build(Root::builder().appenders(c.root_refs.iter().cloned()).build(level_filter(c.root_level)))
-        .map_err(|e| format!("{:?}", e))
+    // Every other configuration (decided by its content, so a case replays identically) is built with a
+    // different root level first and brought to the wanted one through the public mutator
+    // `Config::root_mut().set_level(..)` — the resulting `Config` is the same logical configuration.
+    let via_mutator = (c.root_level as usize + c.loggers.len() + c.appenders.len()) % 2 == 1;
+    let build_level = if via_mutator { if c.root_level == 0 { 5 } else { 0 } } else { c.root_level };
+    let mut config = b
+        .build(Root::builder().appenders(c.root_refs.iter().cloned()).build(level_filter(build_level)))
+        .map_err(|e| format!("{:?}", e))?;
+    if via_mutator {
+        config.root_mut().set_level(level_filter(c.root_level));
+    }
+    Ok(config)
 }
 
 pub fn render_names(ns: &[String]) -> String {
@@ -246,6 +268,12 @@ fn emit_case(c: &Cfg, probes: &[(String, u8)], emit: &mut dyn FnMut(String)) {
     emit(format!("{}\t{}", c.encode(), enc_list(",", &ps)));
 }
 
+fn emit_case_f(c: &Cfg, probes: &[(String, u8)], failing: &[String], emit: &mut dyn FnMut(String)) {
+    let ps: Vec<String> = probes.iter().map(|(t, l)| format!("{};{}", enc_str(t), l)).collect();
+    let fs: Vec<String> = failing.iter().map(|a| enc_str(a)).collect();
+    emit(format!("{}\t{}\t{}", c.encode(), enc_list(",", &ps), enc_list(",", &fs)));
+}
+
 pub fn shuffled(rng: &mut Rng, c: &Cfg) -> Cfg {
     let mut d = c.clone();
     rng.shuffle(&mut d.loggers);
@@ -260,7 +288,7 @@ const EX_TARGETS: &[&str] = &[
 
 /// every configuration with at most `k` loggers from the 10-name pool × 2 levels × additive × 2 attachments,
 /// declared longest name first (so a missing sort shows), probed on 14 targets × levels 1,3,5
-fn exhaustive(k: usize, emit: &mut dyn FnMut(String)) {
+fn exhaustive(k: usize, failing: &[String], emit: &mut dyn FnMut(String)) {
     let probes: Vec<(String, u8)> =
         EX_TARGETS.iter().flat_map(|t| [1u8, 3, 5].iter().map(move |l| (t.to_string(), *l))).collect();
     let n = POOL.len();
@@ -306,14 +334,21 @@ fn exhaustive(k: usize, emit: &mut dyn FnMut(String)) {
                 root_refs: vec!["r".into()],
                 loggers,
             };
-            emit_case(&c, &probes, emit);
+            if failing.is_empty() {
+                emit_case(&c, &probes, emit);
+            } else {
+                emit_case_f(&c, &probes, failing, emit);
+            }
         }
     }
 }
 
 pub fn gen(rng: &mut Rng, n: usize, thorough: bool, emit: &mut dyn FnMut(String)) {
     // exhaustive small-scope block
-    exhaustive(if thorough { 3 } else { 2 }, emit);
+    exhaustive(if thorough { 3 } else { 2 }, &[], emit);
+    // the same small scope with a failing appender in front of / behind the healthy ones
+    exhaustive(2, &["x".to_string()], emit);
+    exhaustive(if thorough { 2 } else { 1 }, &["r".to_string(), "y".to_string()], emit);
     // random stream: each configuration twice, as declared and shuffled
     for i in 0..n {
         let (max_loggers, max_depth) = if thorough && i % 4 == 0 { (9, 6) } else { (6, 4) };
@@ -325,6 +360,17 @@ pub fn gen(rng: &mut Rng, n: usize, thorough: bool, emit: &mut dyn FnMut(String)
                 probes.push((t.clone(), l));
             }
         }
+        if i % 3 == 2 {
+            // some appenders return Err: the others must still be called, the failures reported
+            let mut failing: Vec<String> = c.appenders.iter().filter(|_| rng.chance(1, 2)).cloned().collect();
+            if failing.is_empty() {
+                failing.push(c.appenders[0].clone());
+            }
+            emit_case_f(&c, &probes, &failing, emit);
+            let d = shuffled(rng, &c);
+            emit_case_f(&d, &probes, &failing, emit);
+            continue;
+        }
         emit_case(&c, &probes, emit);
         let d = shuffled(rng, &c);
         emit_case(&d, &probes, emit);
@@ -335,9 +381,17 @@ pub fn gen(rng: &mut Rng, n: usize, thorough: bool, emit: &mut dyn FnMut(String)
 // execution on the real code
 // ------------------------------------------------------------------------------------------------
 pub fn exec(fields: &[&str]) -> String {
-    if fields.len() != 5 {
+    if fields.len() != 5 && fields.len() != 6 {
         return "bad-case".to_owned();
     }
+    let failing: Option<Vec<String>> = if fields.len() == 6 {
+        match dec_list(',', fields[5]).iter().map(|x| dec_str(x)).collect::<Option<Vec<String>>>() {
+            Some(f) => Some(f),
+            None => return "bad-case".to_owned(),
+        }
+    } else {
+        None
+    };
     let cfg = match Cfg::decode(&fields[..4]) {
         Some(c) => c,
         None => return "bad-case".to_owned(),
@@ -354,18 +408,37 @@ pub fn exec(fields: &[&str]) -> String {
         }
     }
     let sink = Arc::new(Mutex::new(Vec::<String>::new()));
-    let config = match build_config(&cfg, &sink) {
+    let errs = Arc::new(Mutex::new(Vec::<String>::new()));
+    let config = match build_config_f(&cfg, &sink, failing.as_deref().unwrap_or(&[])) {
         Ok(c) => c,
         Err(_) => return "INVALID".to_owned(),
     };
     let sink2 = sink.clone();
+    let errs2 = errs.clone();
+    let with_errs = failing.is_some();
     let r = guarded(std::panic::AssertUnwindSafe(move || {
-        let logger = log4rs::Logger::new(config);
+        let logger = if with_errs {
+            let e3 = errs2.clone();
+            log4rs::Logger::new_with_err_handler(
+                config,
+                Box::new(move |e: &anyhow::Error| {
+                    let m = e.to_string();
+                    e3.lock().unwrap().push(dec_str(&m).unwrap_or(format!("?{}", m)));
+                }),
+            )
+        } else {
+            log4rs::Logger::new(config)
+        };
         let mut out: Vec<String> = vec![];
         for (t, l) in &probes {
             sink2.lock().unwrap().clear();
+            errs2.lock().unwrap().clear();
             logger.log(&Record::builder().target(t).level(level_of(*l)).args(format_args!("x")).build());
-            out.push(render_names(&sink2.lock().unwrap()));
+            if with_errs {
+                out.push(format!("{}!{}", render_names(&sink2.lock().unwrap()), render_names(&errs2.lock().unwrap())));
+            } else {
+                out.push(render_names(&sink2.lock().unwrap()));
+            }
         }
         enc_list(",", &out)
     }));
